@@ -224,6 +224,16 @@ func (l wsLink) Write(s string) error {
 	return nil
 }
 func (l wsLink) Close()                                        { l.c.Close() }
+func (l wsLink) Reset()                                        { l.c.Reset() }
+func (l wsLink) Expect(d time.Duration) (*srv.Elem, error) {
+	dl := time.Now().Add(d)
+	for {
+		e, err := l.ReadElem(time.Until(dl))
+		if err != nil || e.Kind != "ws" {
+			return e, err
+		}
+	}
+}
 func (l wsLink) StartTLS(tls.Certificate, time.Duration) error { return errors.New("no STARTTLS over WebSocket") }
 func (l wsLink) RestartStream()                                {}
 
